@@ -6,6 +6,8 @@ type Widget struct {
 	// The widget's title
 	Title  string `json:"title" validate:"required"`
 	Colour Colour `json:"colour"`
+	// two fields declared together
+	W, H int
 }
 
 // Colour is an enumeration declared in a dot-imported package
